@@ -1561,14 +1561,31 @@ func (c *Ctx) execSelect(env *Env, x *ast.SelectStmt, st *State) []*State {
 	lc := &loopCtx{isSwitch: true}
 	fr.loops = append(fr.loops, lc)
 	var out []*State
+	// Go evaluates the channel and value expressions of ALL send cases once, on entering the
+	// select, whichever case is then taken (also the default): their calls belong to every branch
+	// (`case ch <- b.Flush(): default:` takes the batch out of the batcher even if nobody receives).
+	sendVals := map[*ast.CommClause]Val{}
+	for _, cl := range x.Body.List {
+		if cc, ok := cl.(*ast.CommClause); ok {
+			if cm, ok := cc.Comm.(*ast.SendStmt); ok {
+				sendVals[cc] = env.eval(cm.Value, st)
+			}
+		}
+	}
+	// a send that is one alternative of a select is an OFFER ("trysend:<chan>"), not a send that
+	// is bound to happen: contracts can tell the two apart
+	sendKind := "send"
+	if len(x.Body.List) > 1 {
+		sendKind = "trysend"
+	}
 	for _, cl := range x.Body.List {
 		cc := cl.(*ast.CommClause)
 		t := st.clone()
 		switch cm := cc.Comm.(type) {
 		case nil:
 		case *ast.SendStmt:
-			v := env.eval(cm.Value, t)
-			c.chanOp(env, "send", cm.Chan, []Val{v}, t, cm.Pos())
+			v := sendVals[cc]
+			c.chanOp(env, sendKind, cm.Chan, []Val{v}, t, cm.Pos())
 		case *ast.ExprStmt:
 			if ue, ok := unparen(cm.X).(*ast.UnaryExpr); ok && ue.Op == token.ARROW {
 				c.chanOp(env, "recv", ue.X, nil, t, cm.Pos())
